@@ -253,10 +253,12 @@ func (self *VM) SpawnAsync(
 		))
 	}
 
+	// The function receives the converted arguments (e.g. a `T` handed in for a `?T` parameter becomes `Some(T)`).
+	castedArgs := make([]value.Value, len(invocation.Args))
 	index := 0
 	for _, param := range invocation.FunctionSignature.Params {
 		arg := invocation.Args[index]
-		_, interrupt := value.DeepCast(arg, param.Type, errors.Span{}, false)
+		casted, interrupt := value.DeepCast(arg, param.Type, errors.Span{}, false)
 		if interrupt != nil {
 			panic(fmt.Sprintf(
 				"ARGS=%s | Argument %d for param `%s` type mismatch: `%s`",
@@ -267,14 +269,15 @@ func (self *VM) SpawnAsync(
 			))
 		}
 
+		castedArgs[index] = *casted
 		index++
 	}
 
 	// Invert arguments so that they match the order in which they would be pushed onto the stack.
-	argCIdx := len(invocation.Args) - 1
+	argCIdx := len(castedArgs) - 1
 	invertedArgs := make([]value.Value, argCIdx+1)
 	for idx := argCIdx; idx >= 0; idx-- {
-		invertedArgs[argCIdx-idx] = invocation.Args[idx]
+		invertedArgs[argCIdx-idx] = castedArgs[idx]
 	}
 
 	return self.spawnCoreInternal(
@@ -309,10 +312,12 @@ func (self *VM) SpawnSync(
 		))
 	}
 
+	// The function receives the converted arguments (e.g. a `T` handed in for a `?T` parameter becomes `Some(T)`).
+	castedArgs := make([]value.Value, len(invocation.Args))
 	index := 0
 	for _, param := range invocation.FunctionSignature.Params {
 		arg := invocation.Args[index]
-		_, interrupt := value.DeepCast(arg, param.Type, errors.Span{}, false)
+		casted, interrupt := value.DeepCast(arg, param.Type, errors.Span{}, false)
 		if interrupt != nil {
 			panic(fmt.Sprintf(
 				"ARGS=%s | Argument %d for param `%s` type mismatch: `%s`",
@@ -323,14 +328,15 @@ func (self *VM) SpawnSync(
 			))
 		}
 
+		castedArgs[index] = *casted
 		index++
 	}
 
 	// Invert arguments so that they match the order in which they would be pushed onto the stack.
-	argCIdx := len(invocation.Args) - 1
+	argCIdx := len(castedArgs) - 1
 	invertedArgs := make([]value.Value, argCIdx+1)
 	for idx := argCIdx; idx >= 0; idx-- {
-		invertedArgs[argCIdx-idx] = invocation.Args[idx]
+		invertedArgs[argCIdx-idx] = castedArgs[idx]
 	}
 
 	coreHandle := self.spawnCoreInternal(
